@@ -106,6 +106,10 @@ pub use crate::{
     edwards::EdwardsPoint, montgomery::MontgomeryPoint, ristretto::RistrettoPoint, scalar::Scalar,
 };
 
+// Verification-only accessors, off unless built with `--cfg curve25519_dalek_verif`
+#[cfg(curve25519_dalek_verif)]
+pub mod verif_hooks;
+
 // Build time diagnostics for validation
 #[cfg(curve25519_dalek_diagnostics = "build")]
 mod diagnostics;
